@@ -82,6 +82,8 @@ type workerOut struct {
 	cur      *CaseRef
 	race     bool
 	exit     int
+	shards   int    // how the seeded indices of this worker advance
+	seed     uint64 // the seed this worker drew its cases from
 }
 
 func readCur(path string, race bool) *CaseRef {
@@ -118,7 +120,7 @@ func runWorker(o *orchOpts, dir string, shard, shards int, secs float64, race bo
 		cmd.Env = append(cmd.Env, "GORACE=log_path="+raceLog+" halt_on_error=0 history_size=2", "VERIF_RACE_LOG="+raceLog)
 	}
 	err := cmd.Run()
-	wo := &workerOut{race: race}
+	wo := &workerOut{race: race, shards: shards, seed: seed}
 	if f, e := os.Open(outPath); e == nil {
 		sc := bufio.NewScanner(f)
 		sc.Buffer(make([]byte, 1<<20), 1<<28)
@@ -420,6 +422,36 @@ func CheckMain(root, id, tier string, seed uint64) int {
 					break
 				}
 			}
+			if confirmed == nil && kind == "death" && !wo.cur.Fixed && wo.shards > 0 {
+				// state that outlives a Server instance (free lists, pools, package
+				// variables, goroutines the library left behind) can make a case lethal
+				// only behind the cases that ran before it in the same process: replay
+				// it behind the 1, 4, 16, 64 seeded cases that preceded it in its worker
+				if c := MakeCase(p, wo.seed, tier, *wo.cur); c != nil {
+					for _, k := range []int{1, 4, 16, 64} {
+						var prelude []*Case
+						for j := k; j >= 1; j-- {
+							if d := uint64(j) * uint64(wo.shards); d <= wo.cur.Index {
+								if pc := MakeCase(p, wo.seed, tier, CaseRef{Index: wo.cur.Index - d, Race: wo.cur.Race}); pc != nil {
+									prelude = append(prelude, pc)
+								}
+							}
+						}
+						if len(prelude) == 0 {
+							continue
+						}
+						fd := &Finding{Case: c, Ref: *wo.cur, Race: wo.race, Prelude: prelude}
+						path := writeReplay(dir, "death-prelude.json", fd)
+						_, died, hung, rc := replayChild(path, wo.race, 120*time.Second)
+						if died != "" && !hung && rc != 3 && !strings.Contains(died, "WATCHDOG:") {
+							msg, sig := panicSignature(died)
+							fd.Viol = []Violation{{Prop: id, Rule: "process-death", Detail: msg + fmt.Sprintf(" [the process dies only when %d earlier case(s) ran before this one in the same process - state that outlives the Server instance; the replay file carries them as its prelude]", len(prelude)), Sig: sig}}
+							confirmed = fd
+							break
+						}
+					}
+				}
+			}
 			if confirmed == nil {
 				harnessTrouble = "worker died but the recorded case does not reproduce it alone:\n" + wo.died
 				continue
@@ -651,7 +683,7 @@ func minimizeFinding(dir string, f *Finding) *Finding {
 			if tries > 80 {
 				return false
 			}
-			fd := &Finding{Case: c, Viol: f.Viol, Ref: f.Ref, Race: f.Race}
+			fd := &Finding{Case: c, Viol: f.Viol, Ref: f.Ref, Race: f.Race, Prelude: f.Prelude}
 			path := writeReplay(dir, "cand.json", fd)
 			_, died, hung, _ := replayChild(path, f.Race, 60*time.Second)
 			if v.Rule == "hang" {
@@ -664,7 +696,7 @@ func minimizeFinding(dir string, f *Finding) *Finding {
 			return sig == v.Sig
 		}
 		best = Minimize(best, test, 80)
-		return &Finding{Case: best, Viol: f.Viol, Ref: f.Ref, Race: f.Race}
+		return &Finding{Case: best, Viol: f.Viol, Ref: f.Ref, Race: f.Race, Prelude: f.Prelude}
 	}
 	in := writeReplay(dir, "min-in.json", f)
 	outp := filepath.Join(dir, "min-out.json")
